@@ -191,6 +191,9 @@ macro_rules | `(tactic| inner_leaf) => `(tactic| with_reducible exact eparse_inn
 
 /-! ### Host, Connection/Upgrade, Trailer, Content-Encoding, Content-Type -/
 
+theorem hclassify_inner (h p : Bytes) : PR Inner (Host.classify h p) := by unfold Host.classify; inner
+theorem hsanitize_inner (v : Bytes) : PR Inner (Host.sanitize v) := hclassify_inner _ _
+macro_rules | `(tactic| inner_leaf) => `(tactic| with_reducible exact hsanitize_inner _)
 theorem hparse_inner (v : Bytes) : PR Inner (Host.parse v) := by unfold Host.parse; inner
 macro_rules | `(tactic| inner_leaf) => `(tactic| with_reducible exact hparse_inner _)
 theorem values_go_inner (l) : PR Inner (Host.values.go l) := by
